@@ -7,6 +7,7 @@ quantifies over ALL finite step sequences by any number of clients.
 -/
 import RqModel.Lemmas.Rsync
 import RqModel.Lemmas.LockFacts
+import RqModel.Gen.ReadyTarget
 namespace C34
 open RqModel.Rsync
 
@@ -183,6 +184,25 @@ theorem registered_are_pending (steps : List RtStep) :
 example :
     let s := rtRun {} [.subscribe 5, .subscribe 3, .signal 4, .subscribe 2, .unsubscribe 0, .signal 4]
     s.r.isClosed 1 = true ∧ s.r.isClosed 0 = false ∧ s.r.isClosed 2 = true ∧ s.r.subs = [] := by decide
+
+/-- `Reset` drops subscribers without closing their channels: a waiter that was registered
+before a `Reset` is NOT woken when its target is reached afterwards (it is outside `live`). -/
+theorem reset_strands_waiter_witness :
+    (rtRun {} [.subscribe 5, .reset, .signal 9]).r.isClosed 0 = false ∧
+    (rtRun {} [.subscribe 5, .reset, .signal 9]).live = [] ∧
+    (rtRun {} [.subscribe 5, .signal 9]).r.isClosed 0 = true := by decide
+
+/-- **Where rqlite can reset its index targets** (regenerated from store/): only inside
+`Store.Open`, after its `if s.open.Is() { return ErrOpen }` guard, i.e. only on a store that
+is not open; the only subscriber is `waitForLinearizableRead`, which runs on an open store;
+and rqlited opens its store exactly once. So no waiter of a running node is ever dropped by
+`Reset`; only a read still in flight across a Close/re-Open of the same `Store` object (tests)
+could be, and it then ends by its own timeout. -/
+theorem reset_only_on_closed_store :
+    RqModel.Gen.ReadyTarget.resetCallers = ["Store.Open", "Store.Open"] ∧
+    RqModel.Gen.ReadyTarget.resetOnlyAfterNotOpenGuard = true ∧
+    RqModel.Gen.ReadyTarget.subscribers = ["Store.waitForLinearizableRead"] ∧
+    RqModel.Gen.ReadyTarget.storeOpenCallsInRqlited = 1 := by decide
 
 /-! ### regenerated facts: each method is one critical section -/
 theorem lock_discipline :
